@@ -158,7 +158,8 @@ Lemma agg_src_ret op w g p s : s_returns (agg_src op w g p s) = VVector.
 Proof.
   assert (H : forall s', s_returns s' = VVector -> s_returns (exclude_metric_name s' w g) = VVector).
   { intros s' Hs. unfold exclude_metric_name. destruct (_ && _); auto. }
-  unfold agg_src. destruct op; apply H; reflexivity.
+  unfold agg_src. destruct op; try (apply H; reflexivity).
+  destruct (w || negb (String.eqb (str_of_expr p) metric_name)); [apply H|]; reflexivity.
 Qed.
 
 Lemma agg_cons_plain op w g p s ls out :
@@ -175,23 +176,33 @@ Proof.
   unfold agg_src. destruct op; try apply H. congruence.
 Qed.
 
-Lemma agg_cons_count_values w g dst s ls out :
-  nd s -> dst <> metric_name ->
+(** count_values(dst, ...): [out] agrees with the grouped input series outside [dst]; [dst] itself is present
+    unless [without(...)] deletes it (it is listed, or it is the metric name).  Since fix 392e95a this covers
+    [dst = "__name__"] too: by(...) keeps the metric name just created, without(...) drops it. *)
+Lemma agg_cons_count_values (w : bool) (g : list string) (dst : string) s ls out :
+  nd s ->
   Cons s ls ->
+  has out dst = (if w then negb (mem_str dst (metric_name :: g)) else true) ->
   (forall n, n <> dst -> get out n = get (group_key w g ls) n) ->
   Cons (agg_src ACountValues w g (Some (EStr dst)) s) out.
 Proof.
-  intros Hnd Hdst HC He. unfold agg_src. cbn [str_of_expr].
+  intros Hnd HC Hkeep He. unfold agg_src. cbn [str_of_expr].
   set (s1 := set_operation (parse_aggregation1 s w g) "count_values").
   assert (Hnd1 : nd s1) by (apply (nd_parse_aggregation1 s w g Hnd)).
   assert (HC1 : Cons s1 (group_key w g ls)).
   { eapply Cons_spr; [apply spr_operation | apply pa1_cons; auto]. }
-  apply emn_cons.
-  - intros l Hl. destruct (string_dec l dst) as [->|Hne].
+  assert (HC2 : Cons (guarantee_label (include_label s1 [dst]) [dst]) out).
+  { intros l Hl. destruct (string_dec l dst) as [->|Hne].
     + apply can_have_guarantee_new; [apply nd_include; auto | simpl; auto].
     + apply le_perm_guarantee. apply le_perm_include. apply HC1.
-      apply has_get. rewrite <- (He l Hne). apply has_get. exact Hl.
-  - intros Hn. assert (Hk : has (group_key w g ls) metric_name = true).
+      apply has_get. rewrite <- (He l Hne). apply has_get. exact Hl. }
+  destruct (w || negb (String.eqb dst metric_name)) eqn:Ec; [|exact HC2].
+  apply emn_cons; [exact HC2|].
+  intros Hn. destruct (string_dec dst metric_name) as [Hd|Hd].
+  - (* dst = __name__: the guard says [without]; the engine deleted the label *)
+    exfalso. subst dst. rewrite String.eqb_refl in Ec. cbn [negb] in Ec. rewrite orb_false_r in Ec. subst w.
+    rewrite Hn in Hkeep. cbn [mem_str] in Hkeep. rewrite String.eqb_refl in Hkeep. discriminate.
+  - assert (Hk : has (group_key w g ls) metric_name = true).
     { apply has_get. rewrite <- (He metric_name); [apply has_get; exact Hn | congruence]. }
     apply has_group_key in Hk. destruct Hk as [Hk Hg]. destruct w; [tauto|].
     repeat split; auto. intro Hin.
